@@ -22,6 +22,8 @@ struct Inst {
     split_bits: usize,
     split_val: usize,
     max_dev: usize,
+    /// multigraph mode: every present pair may be doubled (symbolic)
+    multi: bool,
 }
 
 struct Setup<Ty> {
@@ -48,8 +50,9 @@ fn pin<Ty: EdgeType>(g: &SymGraph<(), Ty>, bits: usize, val: usize) {
     }
 }
 
-fn setup<Ty: EdgeType>(n: usize, start: usize, bits: usize, val: usize) -> Setup<Ty> {
+fn setup<Ty: EdgeType>(n: usize, start: usize, bits: usize, val: usize, multi: bool) -> Setup<Ty> {
     let g = SymGraph::<(), Ty>::new("a", n, true);
+    let g = if multi { g.make_multi() } else { g };
     pin(&g, bits, val);
     let a = g.matrix();
     let r = reach_closure("R", &a, None);
@@ -103,7 +106,7 @@ impl Inst {
         explore(
             cfg,
             || {
-                let st = setup::<Ty>(n, s, self.split_bits, self.split_val);
+                let st = setup::<Ty>(n, s, self.split_bits, self.split_val, self.multi);
                 if self.kind == Kind::DfsVisit {
                     // control script: value returned at the k-th visitor call: 0 Continue, 1 Prune, 2 Break
                     // control script with at most `max_dev` non-Continue answers: answer j is given at event number p{j}
@@ -393,10 +396,10 @@ fn model_adj(n: usize, directed: bool, m: &Model) -> Vec<Vec<bool>> {
 
 impl Harness for Inst {
     fn name(&self) -> String {
-        format!("{:?}/{}/n{}/s{}t{}/part{}of{}", self.kind, if self.directed { "di" } else { "un" }, self.n, self.start, self.second, self.split_val, 1usize << self.split_bits)
+        format!("{:?}/{}{}/n{}/s{}t{}/part{}of{}", self.kind, if self.directed { "di" } else { "un" }, if self.multi { "+multi" } else { "" }, self.n, self.start, self.second, self.split_val, 1usize << self.split_bits)
     }
     fn bounds(&self) -> String {
-        format!("SymGraph n={} with self-loops, adjacency symbolic and read lazily; start {} second {}{}", self.n, self.start, self.second,
+        format!("SymGraph n={} with self-loops{}, adjacency symbolic and read lazily; start {} second {}{}", self.n, if self.multi { " and symbolically doubled (parallel) edges" } else { "" }, self.start, self.second,
             if self.kind == Kind::DfsVisit { format!("; visitor returns a symbolic Control (Continue/Prune/Break) at every event, at most {} non-Continue answers per run", self.max_dev) } else { String::new() })
     }
     fn run(&self, cfg: &Config) -> Stats {
@@ -436,6 +439,9 @@ impl Harness for Inst {
                     for j in (0..n).rev() {
                         if a[i][j] && (self.directed || i <= j) {
                             g.add_edge(NodeIndex::new(i), NodeIndex::new(j), ());
+                            if self.multi && model_bool(m, &format!("am_{}_{}", i, j)) {
+                                g.add_edge(NodeIndex::new(i), NodeIndex::new(j), ());
+                            }
                         }
                     }
                 }
@@ -571,7 +577,7 @@ fn make(tier: &str, _seed: u64) -> Vec<Box<dyn Harness>> {
     let mut v: Vec<Box<dyn Harness>> = vec![];
     let mut add = |kind: Kind, n: usize, directed: bool, start: usize, second: usize, split_bits: usize| {
         for val in 0..(1usize << split_bits) {
-            v.push(Box::new(Inst { kind, n, directed, start, second, split_bits, split_val: val, max_dev: if thorough { 3 } else { 2 } }) as Box<dyn Harness>);
+            v.push(Box::new(Inst { kind, n, directed, start, second, split_bits, split_val: val, max_dev: if thorough { 3 } else { 2 }, multi: false }) as Box<dyn Harness>);
         }
     };
     for s in 0..3 {
@@ -585,6 +591,20 @@ fn make(tier: &str, _seed: u64) -> Vec<Box<dyn Harness>> {
     add(Kind::Walkers, 4, true, 3, 1, 4);
     add(Kind::Walkers, 4, false, 1, 3, 2);
     add(Kind::DfsVisit, 3, false, 0, 2, 0);
+    // multigraphs: every present pair may be doubled
+    for val in 0..4 {
+        v.push(Box::new(Inst { kind: Kind::Topo, n: 3, directed: true, start: 0, second: 0, split_bits: 2, split_val: val, max_dev: 0, multi: true }));
+        v.push(Box::new(Inst { kind: Kind::Walkers, n: 3, directed: true, start: val % 3, second: (val + 1) % 3, split_bits: 2, split_val: val, max_dev: 0, multi: true }));
+        v.push(Box::new(Inst { kind: Kind::Walkers, n: 3, directed: false, start: val % 3, second: (val + 2) % 3, split_bits: 2, split_val: val, max_dev: 0, multi: true }));
+    }
+    for val in 0..64 {
+        v.push(Box::new(Inst { kind: Kind::Topo, n: 4, directed: true, start: 0, second: 0, split_bits: 6, split_val: val, max_dev: 0, multi: true }));
+    }
+    let mut add = |kind: Kind, n: usize, directed: bool, start: usize, second: usize, split_bits: usize| {
+        for val in 0..(1usize << split_bits) {
+            v.push(Box::new(Inst { kind, n, directed, start, second, split_bits, split_val: val, max_dev: 3, multi: false }) as Box<dyn Harness>);
+        }
+    };
     if thorough {
         for s in 1..3 {
             add(Kind::Walkers, 4, true, s, (s + 2) % 4, 4);
@@ -599,14 +619,14 @@ fn make(tier: &str, _seed: u64) -> Vec<Box<dyn Harness>> {
 
 fn selftest() -> Result<String, String> {
     // pinned path graph 0->1->2: Dfs/Bfs/PostOrder known answers; planted wrong hop spec must be refuted
-    let i = Inst { kind: Kind::Walkers, n: 3, directed: true, start: 0, second: 1, split_bits: 0, split_val: 0, max_dev: 2 };
+    let i = Inst { kind: Kind::Walkers, n: 3, directed: true, start: 0, second: 1, split_bits: 0, split_val: 0, max_dev: 2, multi: false };
     let st = i.run(&Config::default());
     if st.inconclusive.is_some() || st.paths < 10 {
         return Err(format!("walkers n=3: {} paths {:?}", st.paths, st.inconclusive));
     }
     let planted = explore(
         &Config::default(),
-        || setup::<Directed>(3, 0, 0, 0),
+        || setup::<Directed>(3, 0, 0, 0, false),
         |s| {
             // claim: node 2 is never reachable from 0 — must be refuted
             symx::engine::check("planted", &not(&s.r[0][2]));
